@@ -28,6 +28,13 @@ type fileSpec struct {
 	File    string            `json:"file"`
 	Imports map[string]string `json:"imports"`
 	GoGates bool              `json:"go_gates"` // insert vrt.Yield at the start of goroutine bodies / before channel sends
+	Replace []replSpec        `json:"replace"`  // exact, unique textual replacements (e.g. a map range made explorer-ordered)
+	NeedVrt bool              `json:"need_vrt"` // add the zzvrt import (used by replacements)
+}
+
+type replSpec struct {
+	Old string `json:"old"`
+	New string `json:"new"`
 }
 
 type spec struct {
@@ -50,7 +57,21 @@ func main() {
 	for i, fs := range sp.Files {
 		src := filepath.Join(sp.Repo, fs.File)
 		fset := token.NewFileSet()
-		f, err := parser.ParseFile(fset, src, nil, parser.ParseComments)
+		text, rerr := os.ReadFile(src)
+		if rerr != nil {
+			gaps = append(gaps, fmt.Sprintf("%s: cannot read: %v", fs.File, rerr))
+			continue
+		}
+		needVrt := false
+		for _, r := range fs.Replace {
+			if n := strings.Count(string(text), r.Old); n != 1 {
+				gaps = append(gaps, fmt.Sprintf("%s: replacement site %q found %d times (want 1); left as is", fs.File, r.Old, n))
+				continue
+			}
+			text = []byte(strings.Replace(string(text), r.Old, r.New, 1))
+			needVrt = needVrt || fs.NeedVrt
+		}
+		f, err := parser.ParseFile(fset, src, text, parser.ParseComments)
 		if err != nil {
 			gaps = append(gaps, fmt.Sprintf("%s: cannot parse: %v", fs.File, err))
 			continue
@@ -74,10 +95,12 @@ func main() {
 			}
 		}
 		if fs.GoGates {
-			n := addGoGates(f)
-			if n > 0 {
-				addImport(f, shimBase+"vrt", "zzvrt")
+			if n := addGoGates(f); n > 0 {
+				needVrt = true
 			}
+		}
+		if needVrt {
+			addImport(f, shimBase+"vrt", "zzvrt")
 		}
 		var buf bytes.Buffer
 		if err := printer.Fprint(&buf, fset, f); err != nil {
